@@ -135,6 +135,7 @@ package buffer
 //@   ghost wrote bool
 //@   ghost taken bool
 //@   ghost spilled bool
+//@   ghost refused bool
 //@   ghost closed bool threadlocal
 //@ type github.com/mailgun/multibuf.MultiReader
 //@   ghost owns bool
@@ -152,7 +153,7 @@ package buffer
 //@ extern github.com/mailgun/multibuf.NewWriterOnce
 //@   params setters
 //@   modifies nothing
-//@   ensures result1 == nil ==> result0 != nil && fresh(result0) && !result0.wrote && !result0.taken && !result0.spilled && !result0.closed
+//@   ensures result1 == nil ==> result0 != nil && fresh(result0) && !result0.wrote && !result0.taken && !result0.spilled && !result0.closed && !result0.refused
 //@   ensures result1 != nil ==> result0 == nil
 
 // New reads the whole input (the server's body reader): assumed not to touch the request's fields or oxy's state.
@@ -163,7 +164,8 @@ package buffer
 
 //@ iface github.com/mailgun/multibuf.WriterOnce.Write
 //@   params self p
-//@   modifies self.wrote, self.spilled
+//@   modifies self.wrote, self.spilled, self.refused
+//@   ensures refusals_are_remembered: self.refused == (old(self.refused) || result1 != nil)
 //@   ensures accepted_or_error: (result1 == nil ==> self.wrote && result0 == len(p)) && (old(self.wrote) ==> self.wrote)
 //@   ensures spill_is_kept_until_read: old(self.spilled) ==> self.spilled
 //@   ensures no_spill_after_reader: old(self.taken) ==> !self.spilled && result1 != nil
@@ -197,8 +199,12 @@ package buffer
 //@   ensures rewound: result1 == nil && offset == 0 && whence == 0 ==> self.pos == 0
 
 // ---- the capture writer handed to the wrapped handler ------------------------------------------------------------------------
+// One bufferWriter serves one attempt of one request; only its methods write its fields. Its invariants are proved for
+// every method of the type (with or without a contract of its own) and assumed by Buffer.ServeHTTP after the handler ran.
 //@ type bufferWriter
 //@   immutable header buffer responseWriter log
+//@   inv (b) {C15} over_limit_is_remembered: b.buffer != nil && b.buffer.refused ==> b.writeError != nil
+//@   inv (b) {C07,C15,C20} written_means_the_buffer_has_data: b.buffer != nil && b.written ==> b.buffer.wrote
 
 //@ func (*bufferWriter).Header
 //@   props C07 C20
@@ -211,7 +217,7 @@ package buffer
 //@ func (*bufferWriter).Write
 //@   props C07 C15 C20
 //@   requires b != nil && b.buffer != nil
-//@   modifies b.writeError, b.written, b.buffer.wrote, b.buffer.spilled
+//@   modifies b.writeError, b.written, b.buffer.wrote, b.buffer.spilled, b.buffer.refused
 //@   ensures never_fails_the_handler: result1 == nil
 //@   ensures captured_once: calls(b.buffer.Write) == 1 && callarg(b.buffer.Write, 0, 0) == buf
 //@   ensures over_limit_remembered: callres(b.buffer.Write, 0, 1) != nil ==> b.writeError == callres(b.buffer.Write, 0, 1) && result0 == len(buf)
@@ -302,13 +308,14 @@ package buffer
 //@   at_call b.next.ServeHTTP {C07} bounded_attempts: 1 <= attempt && attempt <= 11
 //@   at_call b.next.ServeHTTP {C07,C20} fresh_capture_writer: istype(arg0, "*bufferWriter") && fresh(payload(arg0)) && asref(payload(arg0), "*bufferWriter").code == 0 && !asref(payload(arg0), "*bufferWriter").hijacked
 //@   at_call b.retryPredicate {C07} decided_on_this_attempt: arg0.attempt == attempt && arg0.responseCode == ite(bw.code == 0, 200, bw.code) && arg0.r == req
-//@   after_call b.next.ServeHTTP capture_writer_invariant: (bw.written ==> bw.buffer.wrote)
+//@   after_call b.next.ServeHTTP capture_writer_invariants: typeinv(bw)
+//@   at_call b.next.ServeHTTP {C07,C15,C20} capture_writer_starts_consistent: typeinv(bw)
 //@   at_call github.com/mailgun/multibuf.WriterOnce.Reader {C07} only_when_the_handler_wrote: bw.buffer.wrote
 //@   at_call w.WriteHeader {C07} implicit_200: arg0 == ite(bw.code == 0, 200, bw.code)
 //@   at_call w.WriteHeader {C07} final_attempt: b.retryPredicate == nil || attempt > 10 || !callres(b.retryPredicate, 0, 0)
 //@   at_call w.WriteHeader {C07} headers_of_this_attempt: callarg(CopyHeaders, 0, 1) == bw.header
 //@   at_call Copy {C07} body_of_this_attempt: calls(Reader) == 1 && callres(Reader, 0, 1) == nil && arg1 == callres(Reader, 0, 0) && arg0 == w
-//@   at_call w.WriteHeader {C15} nothing_of_an_over_limit_response: bw.writeError == nil && !bw.hijacked
+//@   at_call w.WriteHeader {C15} nothing_of_an_over_limit_response: bw.writeError == nil && !bw.hijacked && !bw.buffer.refused
 //@   loop 1 invariant 1 <= attempt && attempt <= 11
 //@   loop 1 invariant req.URL == old(req.URL) && req.ContentLength == old(req.ContentLength) && req.Method == old(req.Method) && req.Header == old(req.Header) && (forall k string :: header(req.Header, k) == old(header(req.Header, k)))
 //@   loop 1 invariant body == nil || body.pos == 0
